@@ -237,7 +237,7 @@ func runC04(t *rapid.T) {
 		case "pause":
 			o.Pause = rapid.SampledFrom([]int{1, 20, 60}).Draw(t, "ms")
 		case "suspend-resume":
-			o.Flags = rapid.IntRange(0, 3).Draw(t, "startfail")
+			o.Flags = rapid.IntRange(0, 5).Draw(t, "startfail") // 0: Start fails once; 4: the size query fails during Resume
 			ns := rapid.IntRange(0, 3).Draw(t, "nsub")
 			for j := 0; j < ns; j++ {
 				so := lop4{Kind: rapid.SampledFrom([]string{"mouse", "nomouse", "paste", "nopaste", "focus", "nofocus", "title", "curstyle", "cursor"}).Draw(t, "subop")}
@@ -256,7 +256,7 @@ func runC04(t *rapid.T) {
 	if rapid.IntRange(0, 2).Draw(t, "concurrent") == 0 {
 		nc := rapid.IntRange(1, 3).Draw(t, "nconc")
 		for i := 0; i < nc; i++ {
-			co := lop4{Kind: rapid.SampledFrom([]string{"mouse", "paste", "focus", "curstyle", "title"}).Draw(t, "concop")}
+			co := lop4{Kind: rapid.SampledFrom([]string{"mouse", "paste", "focus", "curstyle", "title", "fini"}).Draw(t, "concop")}
 			co.Flags = rapid.IntRange(1, 7).Draw(t, "concflags")
 			co.CS = rapid.IntRange(1, 6).Draw(t, "conccs")
 			co.Title = "concurrent-title"
@@ -455,7 +455,13 @@ func runC04(t *rapid.T) {
 					apply(so)
 				}
 				w.inCall = "resume"
+				if o.Flags == 4 {
+					// the window size cannot be queried right now: Resume
+					// carries on with the size it knows
+					w.Tty.WinSizeFail = true
+				}
 				err := sc.Resume()
+				w.Tty.WinSizeFail = false
 				w.inCall = ""
 				if err != nil {
 					w.fail("C04/resume:error", "Resume failed: %v", err)
@@ -538,6 +544,21 @@ func runC04(t *rapid.T) {
 		for _, co := range conc {
 			if !endingNow {
 				return // the call has returned: a later mode change is a sequential call on a stopped screen
+			}
+			if co.Kind == "fini" {
+				if ending != "fini" {
+					continue
+				}
+				// a second, overlapping Fini: when it returns the screen is
+				// finalized too (it waits for the first)
+				sc2 := w.Scr
+				sc2.Fini()
+				w.Tty.Faults.Inc("overlapping_fini")
+				if !w.Tty.Closed || w.Tty.Started {
+					w.fail("C04/tty-order:close-in-fini", "a second Fini, overlapping the first, returned before the tty was stopped and closed (started=%v closed=%v)", w.Tty.Started, w.Tty.Closed)
+				}
+				w.restored("the second of two overlapping Fini calls", pristine, pushed)
+				continue
 			}
 			app2In = true
 			app2Kinds = append(app2Kinds, co.Kind)
